@@ -785,13 +785,51 @@ pub async fn run_c08(w: &mut World, m: &mut Mon, r: &mut R, t: &Twin) {
                     ops.push((wn, w.ix_venue_withdraw(t.acct0, b, owner, ta, 10, None)));
                 }
             }
+            // moving the frozen account to a new one (both variants): nobody but the group admin
+            let p = w.chain.payer.pubkey();
+            let fwk = w.fee_wallet.pubkey();
+            let g0k = w.groups[t.g0].key;
+            let nk = w.next_kp();
+            let idx = (w.accts.len() % 60_000) as u16;
+            ops.push(("transfer_to_new_account_pda", ix::transfer_account_pda(g0k, w.accts[t.acct0].key, owner, p, owner, fwk, idx, None).0));
+            let n_plain = ops.len();
+            ops.push(("transfer_to_new_account", ix::transfer_account(g0k, w.accts[t.acct0].key, nk.pubkey(), owner, p, owner, fwk)));
+            // the same instructions presented with the other group (and whatever this identity is
+            // there): a frozen account obeys the admin of its own group only
+            if *who == "other_group_admin" {
+                let g1k = w.groups[t.g1].key;
+                let mut foreign: Vec<(&str, Instruction)> = vec![];
+                for (opn, ixn) in ops.iter().take(n_plain) {
+                    let mut j = ixn.clone();
+                    for mt in j.accounts.iter_mut() {
+                        if mt.pubkey == g0k {
+                            mt.pubkey = g1k;
+                        }
+                    }
+                    if opn.starts_with("transfer_to_new_account_pda") {
+                        // the new account's address is derived from the group that is presented
+                        j = ix::transfer_account_pda(g1k, w.accts[t.acct0].key, owner, p, owner, fwk, idx, None).0;
+                    }
+                    foreign.push((opn, j));
+                }
+                for (opn, ixn) in foreign {
+                    let o = w.probe(m, &[ixn], &[kp]).await;
+                    m.r.eval();
+                    m.r.count("C08.frozen_cells_foreign_group_and_its_admin");
+                    if o.ok() {
+                        m.r.violate("C08", &format!("C08/matrix/frozen-account/{}-accepted-for-foreign-group-signed-by-its-admin", opn), "a frozen account obeys the admin of its own group only".into());
+                    }
+                }
+            }
             for (opn, ixn) in ops {
-                let o = w.probe(m, &[ixn], &[kp]).await;
+                let sg: Vec<&Keypair> = if opn == "transfer_to_new_account" { vec![kp, &nk] } else { vec![kp] };
+                let o = w.probe(m, &[ixn], &sg).await;
                 m.r.eval();
                 m.r.count("C08.frozen_cells");
                 m.r.distinct(&("frozen", *who, opn, o.ok()));
-                let must_ok = *who == "admin";
-                if o.ok() && !must_ok {
+                let may_ok = *who == "admin";
+                let must_ok = may_ok && !opn.starts_with("transfer_to_new_account");
+                if o.ok() && !may_ok {
                     m.r.violate("C08", &format!("C08/matrix/frozen-account/{}-by-{}-accepted", opn, who), "only the group admin may act on a frozen account".into());
                 }
                 if !o.ok() && must_ok {
